@@ -58,7 +58,13 @@ impl<'a> ProtobufReader<'a> {
             let (content_offset, content_length) =
                 Self::read_content_offset_and_length(reader, format)?;
             let content_position = content_position + content_offset;
-            let content_end = content_position + content_length;
+            // lengths come from the input: never index beyond the enclosing range
+            let content_end = content_position
+                .checked_add(content_length)
+                .filter(|end| *end <= range.end)
+                .ok_or_else(|| {
+                    Error::from(std::io::Error::from(std::io::ErrorKind::UnexpectedEof))
+                })?;
 
             tags.push_back((tag, format, content_position..content_end));
             position = content_end;
